@@ -1,16 +1,54 @@
 (* C15: token exchange needs live subject / actor tokens and returns what it declares.
-   Same case vocabulary and model as C08 (histories over C08_OP); the ground-truth monitor
-   (which tokens are live) is C08_spec.gstep; the judgement of each token-exchange answer is
-   written here from the C15 text. *)
+   Case vocabulary and model of the histories are C08's (histories over C08_OP); the ground-truth
+   monitor (which tokens are live) is C08_spec.gstep; the judgement of each token-exchange answer
+   is written here from the C15 text.
+   Round 11: a second kind of case (IHelp) - after a history, ONE token-exchange request is BUILT
+   AND SENT BY THE LIBRARY'S CLIENT HELPERS (C15_Helper.v); observed are the form at the HTTP
+   transport, the provider's answer and the views of the request the provider hands to its
+   storage through the getters of op.TokenExchangeRequest. *)
 From OIDC Require Import Lib.
-From OIDC Require Export C08_OP.
+From OIDC Require Export C08_OP C15_Helper.
 From OIDC Require C08_spec.
+Import C08_spec.    (* the names input / observed / model / spec / ... defined below are C15's own *)
 
-Definition input := hist_input.
-Definition observed := list out.
-Definition model : input -> observed := run_hist.
+Inductive input :=
+| IHist (h : hist_input)
+(* clients, storage policy and history as in Hist; then, sent to host [host] while the key storage
+   is up or not, through router r with the credential c the helper was given
+   (NewTokenExchangerClientCredentials / httphelper.AuthorizeBasic: Basic; NewTokenExchanger: NoCred),
+   the helper call *)
+| IHelp (cl : list client) (pol : tepolicy) (ops : list (nat * bool * gop ptok))
+        (host : nat) (keys_up : bool) (r : router) (c : cred) (call : hcall).
+Inductive observed :=
+| OHist (xs : list out)
+(* the answers of the history followed by the answer to the helper's request (if one was sent);
+   the form read at the transport (None: nothing was sent); the view at the entry of
+   ValidateTokenExchangeRequest and the last view a later storage hook got (None: not reached) *)
+| OHelp (xs : list out) (w : option wire) (v1 v2 : option view).
 
-Import C08_spec.
+Definition model (i : input) : observed :=
+  match i with
+  | IHist h => OHist (run_hist h)
+  | IHelp cl pol ops host ku r c call =>
+      match dispatch call with
+      | None => OHelp (run_hist (Hist cl pol ops)) None None None
+      | Some w =>
+          let q := parse w in
+          match q_grant q with
+          | GOther =>      (* unsupported_grant_type / grant_type missing: 400 on both routers *)
+              OHelp (run_hist (Hist cl pol ops) ++ [OErr S400 true]) (Some w) None None
+          | GExchange =>
+              let kc := configure (p_kopts pol) in
+              let g := fst (state_after cl (init pol) (located kc ops)) in
+              let vs := match locate_op kc host ku (op_of r c q) with
+                        | Exchange r' c' subj styp actor req scopes aud =>
+                            exch_views cl r' g c' subj styp actor req scopes aud (q_resource q)
+                        | _ => (None, None)
+                        end in
+              OHelp (run_hist (Hist cl pol (ops ++ [(host, ku, op_of r c q)]))) (Some w) (fst vs) (snd vs)
+          end
+      end
+  end.
 
 (* the client is authenticated: the storage accepted the secret presented for it, or a
    private_key_jwt client presented a verified assertion *)
@@ -120,15 +158,154 @@ Fixpoint spec_run (cl : list client) (g : store) (ops : list op) (xs : list out)
   | _, _ => false
   end.
 
-Definition spec (i : input) (o : observed) : bool :=
-  match i with Hist cl pol ops => spec_run cl (Store [] [] pol) (located (designated (p_kopts pol)) ops) o end.
-
-Definition obs_eqb (a b : observed) : bool := list_eqb out_eqb a b.
-
-(* decision-path class: 0 = no exchange of the history succeeded *)
 Definition exch_ok (x : out) : bool := match x with OExch _ _ _ _ _ _ => true | _ => false end.
+
+Definition spec_hist (h : hist_input) (o : list out) : bool :=
+  match h with Hist cl pol ops => spec_run cl (Store [] [] pol) (located (designated (p_kopts pol)) ops) o end.
+
+(* ---------------------------------------------------------------- helper-built requests *)
+
+(* What the caller asked for, from the helper call as written: of the options of one kind the
+   LAST one counts, an option changes nothing but its own parameter(s); without an option the
+   documented default - grant type token-exchange, requested type access_token
+   (NewTokenExchangeRequest; DelegationTokenRequest: an access token is exchanged for an access
+   token), nothing else.  ExchangeToken: "SubjectToken and SubjectTokenType are required
+   parameters" - without a type nothing may be sent (None). *)
+Fixpoint last_of {A} (f : hopt -> option A) (opts : list hopt) : option A :=
+  match opts with
+  | [] => None
+  | o :: r => match last_of f r with Some x => Some x | None => f o end
+  end.
+Definition or_default {A} (o : option A) (d : A) : A := match o with Some x => x | None => d end.
+Definition intent_opts (subj : ptok) (styp : ttype) (opts : list hopt) : treq :=
+  TReq (or_default (last_of (fun o => match o with WGrant g => Some g | _ => None end) opts) GExchange)
+       subj styp
+       (last_of (fun o => match o with WActor t typ => Some (t, typ) | _ => None end) opts)
+       (or_default (last_of (fun o => match o with WResource l => Some l | _ => None end) opts) [])
+       (or_default (last_of (fun o => match o with WAudience l => Some l | _ => None end) opts) [])
+       (or_default (last_of (fun o => match o with WScope l => Some l | _ => None end) opts) [])
+       (or_default (last_of (fun o => match o with WRequested t => Some t | _ => None end) opts) TAccess).
+Definition intent (call : hcall) : option treq :=
+  match call with
+  | CallGrants subj styp opts => Some (intent_opts subj styp opts)
+  | CallDelegation subj opts => Some (intent_opts subj TAccess opts)
+  | CallClient subj styp actor res aud sc req =>
+      match styp with TAbsent => None | _ => Some (TReq GExchange subj styp actor res aud sc req) end
+  end.
+
+(* the form goes to the token endpoint and carries exactly that: every parameter its value, subject token in the
+   subject parameter and actor token in the actor parameter, every list complete and in order
+   (scope: the words of all values of the parameter) *)
+Definition wire_faithful (q : treq) (w : wire) : bool :=
+  w_ep w && gtype_eqb (w_grant w) (q_grant q) && ptok_eqb (w_subj w) (q_subj q) && ttype_eqb (w_styp w) (q_styp q)
+  && option_eqb ptyp_eqb (w_actor w) (q_actor q) && strs_eqb (w_resource w) (q_resource q)
+  && strs_eqb (w_audience w) (q_audience q) && strs_eqb (flat_map words (w_scope w)) (q_scope q)
+  && ttype_eqb (w_requested w) (q_requested q).
+
+(* what the getters must show of a token presented as [typ]: the subject it speaks for, the
+   declared type, its storage id (access tokens of the provider) or the token itself, and the
+   claims of a JWT (none for opaque, refresh and third-party tokens) *)
+Definition expect_tview (g : store) (typ : ttype) (t : tokstr) : tview :=
+  TView (subject_of g typ t) typ
+        (match t, typ with
+         | Ext _ _, _ => VSelf
+         | _, TAccess => VSid (as_access t)
+         | _, _ => VSelf
+         end)
+        (match typ, t with (TAccess | TId), Jwt _ _ _ _ sub _ => Some sub | _, _ => None end).
+(* the view at the entry of ValidateTokenExchangeRequest: the verified subject / actor data of
+   THIS request (no actor data without an actor token), the lists and the requested type as the
+   caller passed them, the authenticated client *)
+Definition expect_view1 (g : store) (c : cred) (subj : tokstr) (styp : ttype) (actor : option (tokstr * ttype))
+    (q : treq) : view :=
+  View (subject_of g styp subj) (cred_id c) (expect_tview g styp subj)
+       (match actor with Some (ta, atyp) => Some (expect_tview g atyp ta) | None => None end)
+       (q_resource q) (q_audience q) (q_scope q) (q_requested q).
+(* the view of the later hooks: the same token data; subject, scopes and requested type are the
+   storage policy's decision *)
+Definition expect_view2 (g : store) (c : cred) (subj : tokstr) (styp : ttype) (actor : option (tokstr * ttype))
+    (q : treq) : view :=
+  View (decided_subject (policy g) (subject_of g styp subj)) (cred_id c) (expect_tview g styp subj)
+       (match actor with Some (ta, atyp) => Some (expect_tview g atyp ta) | None => None end)
+       (q_resource q) (q_audience q) (decided_scopes (policy g) (q_scope q)) (effective_type (policy g) (q_requested q)).
+
+Fixpoint split_last {A} (l : list A) : option (list A * A) :=
+  match l with
+  | [] => None
+  | x :: r => match split_last r with Some (i, z) => Some (x :: i, z) | None => Some ([], x) end
+  end.
+(* the ground truth after a history *)
+Fixpoint gafter (cl : list client) (g : store) (ops : list op) (xs : list out) : store :=
+  match ops, xs with
+  | o :: ops', x :: xs' => gafter cl (gstep cl g o x) ops' xs'
+  | _, _ => g
+  end.
+Definition is_none {A} (o : option A) : bool := match o with None => true | Some _ => false end.
+
+(* A helper-built request is answered exactly as the C15 text wants the request THE CALLER ASKED
+   FOR to be answered (check on the intent: subject, actor, requested type, scopes, audience -
+   nothing dropped, nothing swapped), the wire form is faithful, and whatever the storage was
+   shown is the data of this request; a success consulted the storage at both hooks. *)
+Definition spec_help (cl : list client) (pol : tepolicy) (ops : list (nat * bool * gop ptok))
+    (host : nat) (ku : bool) (r : router) (c : cred) (call : hcall)
+    (xs : list out) (w : option wire) (v1 v2 : option view) : bool :=
+  let kc := designated (p_kopts pol) in
+  let pre := located kc ops in
+  let g0 := Store [] [] pol in
+  match intent call with
+  | None => is_none w && is_none v1 && is_none v2 && spec_run cl g0 pre xs
+  | Some q =>
+      match w with Some w' => wire_faithful q w' | None => false end &&
+      match q_grant q with
+      | GOther =>      (* no token exchange was asked for: an OAuth error, the storage is not consulted *)
+          is_none v1 && is_none v2 &&
+          match split_last xs with
+          | Some (xs', OErr st oauth) => is_error st && oauth && spec_run cl g0 pre xs'
+          | _ => false
+          end
+      | GExchange =>
+          match locate_op kc host ku (op_of r c q) with
+          | Exchange r' c' subj styp actor req scopes aud as fin =>
+              spec_run cl g0 (pre ++ [fin]) xs &&
+              let g := gafter cl g0 pre xs in
+              let success := match split_last xs with Some (_, x) => exch_ok x | None => false end in
+              match v1 with
+              | Some v => view_eqb v (expect_view1 g c' subj styp actor q)
+              | None => negb success && is_none v2
+              end &&
+              match v2 with
+              | Some v => view_eqb v (expect_view2 g c' subj styp actor q)
+              | None => negb success
+              end
+          | _ => false
+          end
+      end
+  end.
+
+Definition spec (i : input) (o : observed) : bool :=
+  match i, o with
+  | IHist h, OHist xs => spec_hist h xs
+  | IHelp cl pol ops host ku r c call, OHelp xs w v1 v2 => spec_help cl pol ops host ku r c call xs w v1 v2
+  | _, _ => false
+  end.
+
+Definition obs_eqb (a b : observed) : bool :=
+  match a, b with
+  | OHist x, OHist y => list_eqb out_eqb x y
+  | OHelp x w v1 v2, OHelp y w' v1' v2' =>
+      list_eqb out_eqb x y && option_eqb wire_eqb w w' && option_eqb view_eqb v1 v1' && option_eqb view_eqb v2 v2'
+  | _, _ => false
+  end.
+
+(* decision-path class.  Histories: 0 = no exchange of the history succeeded.  Helper cases:
+   0 = the request did not reach the storage, 1 = it reached the first hook only, else by answers *)
 Definition path (i : input) (o : observed) : nat :=
-  if existsb exch_ok o then path_of o else 0.
+  match o with
+  | OHist xs => if existsb exch_ok xs then path_of xs else 0
+  | OHelp xs _ None _ => 0
+  | OHelp xs _ (Some _) None => 1
+  | OHelp xs _ (Some _) (Some _) => 2 + path_of xs
+  end.
 
 Definition case_mismatches := run_mismatches model obs_eqb.
 Definition case_violations := run_violations spec.
